@@ -76,6 +76,11 @@ MISSED = [
  ("C14-j (head values kept in an integer-typed numpy array)", "floats always written with a decimal point; no integer-valued heads", "`inthead` inputs + `%.17g` text files (inputs whose inferred types differ are refused by the merger itself and counted)"),
  ("C18-j (records split on a bare `>`)", "descriptions never contained `>`", "descriptions such as `5'->3' exonuclease` and merged deflines"),
  ("C20-j (`splitext` on the run's base name)", "run names had no dots besides the extension", "run names like `run_0_1_0.5ug`, `run.v2`"),
+ ("C02-k / C08-k (hash-sorted spectrum order memoised per file path at module level; C08-k: `np.split` views of the cached array shuffled in place)", "every observed brew was the first use of its path in the process", "history prelude (§3.8): other data of the same shape written to the same paths and brewed with another fold count earlier in the process, files restored byte for byte; C08 `repeat` runs it between the first and the second identical run"),
+ ("C07-k (`update_labels` reads the label column through an `lru_cache` keyed by path)", "as above; a row-permuted earlier table only makes the fallback trigger more often, which is safe", "`few_decoys` prelude: the same rows with most decoys relabelled as targets, so that stale labels make useless learned scores look good"),
+ ("C05-k / C14-k (parsed head scores of the merge inputs memoised at module level by input index)", "every `merge_sort` generator was consumed to the end before the next one started", "C14: a merge left partly consumed (generator kept alive) before the judged one, two merges consumed in lock-step; C05: an abandoned merge of foreign sorted files before the chunked variants"),
+ ("C16-k (`read_fasta` memoises digests per sequence, key without `semi`)", "no database was read twice in one process with different digestion settings", "every `seqs` database is read again with exactly one digestion setting changed, then with the first settings again (`history_reads`)"),
+ ("C17-k (`digest` returns the `lru_cache` entry itself)", "returned sets were only read", "every fourth call: the returned set is edited in place by the caller and the same call repeated (`result_aliases_internal_state`)"),
  ("C12-d (new scoring block size, last row unscored when n % size == 1)", "the constant did not exist when the monitors were written; tables are far smaller than its default", "tunables are discovered in `mokapot.constants` at run time; C05 adds a variant per discovered constant, C12 a metamorphic refit under small values of it"),
 ]
 seed_rows = ["| seeded change | needs | result |", "|---|---|---|"]
@@ -95,8 +100,11 @@ text = f'''## 12. Which checks catch which changes
 
 ### 12.1 Independently written changes (`/verif/seeded/<id>/`)
 
-Three rounds of sub-agents were each given only the text of one property and a scratch
-worktree and asked for a change that breaks it while the pinned suite keeps passing (round b
+Eleven rounds (a-k) of sub-agents were each given only the text of one property and a scratch
+worktree and asked for a change that breaks it while the pinned suite keeps passing (rounds d-k
+with the guidance texts `tools/seed_guidance_*.txt`; round k: violations that depend on history,
+state kept between calls and aliasing; its C01 change was discarded because it makes a pinned
+test fail, although C01's check reports it; round b
 with the hint to avoid the obvious one-liners; round c steered towards concurrency, failures
 at a particular point, process-level state and option interplay for the pipeline properties,
 and towards argument forms, extreme values and state kept between calls for the function-level
